@@ -612,6 +612,12 @@ func (g *G) tryStmt(c ctx) []Stmt {
 		}
 		return append(ss, g.block(cc, g.R.Intn(3))...)
 	})
+	var out []Stmt
+	if s.CatchVar != "" && g.R.Intn(4) == 0 {
+		// an outer binding with the catch variable's name must survive the try untouched
+		g.feat("catch-var-shadows-outer")
+		out = append(out, &Assign{LHS: []Expr{&Name{N: "e"}}, RHS: []Expr{&IntLit{V: int64(600 + g.R.Intn(9))}}})
+	}
 	if g.R.Intn(2) == 0 {
 		g.feat("finally")
 		s.HasFinally = true
@@ -623,7 +629,11 @@ func (g *G) tryStmt(c ctx) []Stmt {
 			return append(ss, g.block(cc, g.R.Intn(2))...)
 		})
 	}
-	return []Stmt{s}
+	out = append(out, s)
+	if len(out) > 1 {
+		out = append(out, &ExprStmt{X: &Call{Fn: "rd", Args: []Expr{&StrLit{V: "e"}, &Coalesce{L: &Name{N: "e"}, R: &StrLit{V: "<undef>"}}}}})
+	}
+	return out
 }
 
 func (g *G) returnStmt() []Stmt {
